@@ -168,6 +168,19 @@ async fn run_async(sc: Scenario, seed: u64, quiesce: Duration) -> (Vec<(String, 
         }
     }
     tokio::time::sleep(quiesce).await; // quiescence
+    if quiesce < Duration::from_secs(1) {
+        // real-time (multi-worker) runs have no quiescence to wait for: poll until the peer has received everything that
+        // was submitted, or 5 s have passed (the wall clock only bounds the wait; the verdict is on bytes)
+        let want_total: usize = logs.lock().unwrap().values().flat_map(|v| v.iter()).filter(|s| s.cmd == refcodec::PSH).map(|s| s.data.len()).sum();
+        let t0 = std::time::Instant::now();
+        while t0.elapsed() < Duration::from_secs(5) {
+            let have_total: usize = received.lock().unwrap().values().map(|v| v.len()).sum();
+            if have_total >= want_total {
+                break;
+            }
+            tokio::time::sleep(Duration::from_millis(5)).await;
+        }
+    }
     let wire = pair.c2s.log().bytes;
     let (frames, consumed) = refcodec::parse_all(&wire);
     let order: String = frames.iter().filter(|f| !f.is_padding()).map(|f| format!("{}{}", refcodec::cmd_name(f.cmd), f.sid)).collect::<Vec<_>>().join(",");
